@@ -616,7 +616,7 @@ fn run_case(id: usize, cfg: &Cfg, r: &mut ChaCha8Rng) -> Value {
         let k = r.gen_range(0..cfg.oracles[o].0);
         let mut p = proof.clone();
         p.query_round_proofs[rr].initial_trees_proof.evals_proofs[o].0[k] += delta(r);
-        rec.push("leaf_edit", "fixed", json!({"oracle": o, "k": k, "round": rr, "last": nl == 0}), only(rr), verify(&w, &w.openings, &ch, &w.caps, &p));
+        rec.push("leaf_edit", "fixed", json!({"oracle": o, "k": k, "round": rr, "last": nl == 0, "path_len": lde_bits - cfg.cap}), only(rr), verify(&w, &w.openings, &ch, &w.caps, &p));
     }
     if let Some(o) = (0..cfg.oracles.len()).find(|&o| salt_len(&w, o) > 0) {
         let rr = r.gen_range(0..q);
@@ -655,8 +655,48 @@ fn run_case(id: usize, cfg: &Cfg, r: &mut ChaCha8Rng) -> Value {
             let mut p = proof.clone();
             p.query_round_proofs[rr].steps[l].evals[m] += if r.gen_bool(0.5) { fb(delta(r)) } else { rfe(r) };
             let cls: Vec<&'static str> = (0..q).map(|i| if i != rr { "miss" } else if slot_q { "hitq" } else { "hits" }).collect();
-            rec.push("coset_edit", "fixed", json!({"layer": l, "last": last, "round": rr, "slot": m}), cls, verify(&w, &w.openings, &ch, &w.caps, &p));
+            rec.push("coset_edit", "fixed", json!({"layer": l, "last": last, "round": rr, "slot": m, "path_len": proof.query_round_proofs[rr].steps[l].merkle_proof.siblings.len()}), cls, verify(&w, &w.openings, &ch, &w.caps, &p));
         }
+    }
+    // an entry of the cap of an initial oracle that a query reads (only InitMerkle reads it); with
+    // lde_bits == cap_height the path is empty and the cap entry is compared with the leaf hash itself
+    {
+        let rr = r.gen_range(0..q);
+        let o = r.gen_range(0..cfg.oracles.len());
+        let pl = lde_bits - cfg.cap;
+        let ci = idx[rr] >> pl;
+        let mut caps = w.caps.clone();
+        caps[o].0[ci].elements[r.gen_range(0..4)] += delta(r);
+        let cls: Vec<&'static str> = idx.iter().map(|&x| if x >> pl == ci { "hit" } else { "miss" }).collect();
+        rec.push("init_cap", "fixed", json!({"oracle": o, "cap_index": ci, "path_len": pl}), cls, verify(&w, &w.openings, &ch, &caps, &proof));
+    }
+    for l in 0..nl {
+        // an entry of the cap of layer l that a query reads (only LayerMerkle(l) reads it)
+        let rr = r.gen_range(0..q);
+        let pl = proof.query_round_proofs[rr].steps[l].merkle_proof.siblings.len();
+        let ci = (idx[rr] >> sums[l + 1]) >> pl;
+        let mut p = proof.clone();
+        p.commit_phase_merkle_caps[l].0[ci].elements[r.gen_range(0..4)] += delta(r);
+        let cls: Vec<&'static str> = idx.iter().map(|&x| if (x >> sums[l + 1]) >> pl == ci { "hit" } else { "miss" }).collect();
+        rec.push("layer_cap", "fixed", json!({"layer": l, "last": l + 1 == nl, "cap_index": ci, "path_len": pl}), cls, verify(&w, &w.openings, &ch, &w.caps, &p));
+    }
+    // single query: a sibling value of the last layer's coset changed (nothing re-committed) and the final
+    // polynomial forged so that Final passes: only LayerMerkle(last) reads the difference
+    if nl > 0 && q == 1 {
+        let l = nl - 1;
+        let ab = bits[l];
+        let cur = idx[0] >> sums[l];
+        let within = cur & ((1 << ab) - 1);
+        let m = (within + r.gen_range(1..(1usize << ab))) & ((1 << ab) - 1);
+        let mut p = proof.clone();
+        let x0 = F::MULTIPLICATIVE_GROUP_GENERATOR * F::primitive_root_of_unity(lde_bits).exp_u64(rev_bits(idx[0], lde_bits) as u64);
+        let x = x0.exp_power_of_2(sums[l]);
+        let old = plonky2::verif_exports::compute_evaluation::<F, D>(x, within, ab, &p.query_round_proofs[0].steps[l].evals, ch.fri_betas[l]);
+        p.query_round_proofs[0].steps[l].evals[m] += rfe(r);
+        let new = plonky2::verif_exports::compute_evaluation::<F, D>(x, within, ab, &p.query_round_proofs[0].steps[l].evals, ch.fri_betas[l]);
+        p.final_poly.coeffs[0] += new - old;
+        let pl = p.query_round_proofs[0].steps[l].merkle_proof.siblings.len();
+        rec.push("coset_forge", "fixed", json!({"layer": l, "last": true, "slot": m, "path_len": pl}), vec!["hits"], verify(&w, &w.openings, &ch, &w.caps, &p));
     }
     // final polynomial coefficient
     {
@@ -743,7 +783,7 @@ fn run_case(id: usize, cfg: &Cfg, r: &mut ChaCha8Rng) -> Value {
                 for (c, &(o, pi)) in chosen.iter().enumerate() {
                     p.query_round_proofs[rr].initial_trees_proof.evals_proofs[o].0[pi] += kv[c] * scale;
                 }
-                rec.push("leaf_kernel", "fixed", json!({"polys": m, "round": rr}), only(rr), verify(&w, &w.openings, &ch, &w.caps, &p));
+                rec.push("leaf_kernel", "fixed", json!({"polys": m, "round": rr, "path_len": lde_bits - cfg.cap}), only(rr), verify(&w, &w.openings, &ch, &w.caps, &p));
                 // (ii) the oracles are re-committed as well: invisible to every check
                 let mut new_trees: Vec<Tree> = vec![];
                 for o in 0..cfg.oracles.len() {
@@ -967,6 +1007,32 @@ fn verifier_combination_table(w: &World, op: &FriOpenings<F, D>, alpha: FE) -> V
     out
 }
 
+/// configurations in which a Merkle path is EMPTY (tree height == cap height): the last commit-phase
+/// layer (in an admissible schedule no other layer can be that low: the following tree would be lower than
+/// the cap) or, without any reduction, the initial oracles.  Always part of the sweep (first case ids).
+fn special_cfgs() -> Vec<Cfg> {
+    let mk = |db: usize, rb: usize, cap: usize, pow: u32, q: usize, strat: FriReductionStrategy, hiding: bool| Cfg {
+        db, rb, cap, pow, q, strat, hiding,
+        oracles: vec![(2, true), (3, false)],
+        batches: vec![vec![(0, 0), (0, 1), (1, 0), (1, 1), (1, 2)], vec![(0, 1), (1, 2)]],
+    };
+    let mut v = vec![];
+    for &q in &[1usize, 1, 7] {
+        // last layer: 2^(8-3) = 2^5 cosets = 2^cap_height leaves
+        v.push(mk(6, 2, 5, 0, q, FriReductionStrategy::Fixed(vec![2, 1]), false));
+        v.push(mk(4, 1, 4, 2, q, FriReductionStrategy::Fixed(vec![1]), true));
+        // ConstantArityBits stops exactly when the next tree would be lower than the cap
+        v.push(mk(5, 1, 3, 0, q, FriReductionStrategy::ConstantArityBits(1, 0), false));
+        v.push(mk(7, 3, 4, 1, q, FriReductionStrategy::ConstantArityBits(2, 0), true));
+        // the same shapes one cap level lower (non-empty path) as controls
+        v.push(mk(6, 2, 4, 0, q, FriReductionStrategy::Fixed(vec![2, 1]), false));
+        // initial trees: lde_bits == cap_height, no reduction
+        v.push(mk(3, 1, 4, 0, q, FriReductionStrategy::Fixed(vec![]), false));
+        v.push(mk(2, 2, 4, 3, q, FriReductionStrategy::MinSize(Some(0)), true));
+    }
+    v
+}
+
 fn fri_cmd(args: &[String]) -> Result<()> {
     let ncases = opt_usize(args, "--n", 200);
     let max_db = opt_usize(args, "--max-db", 8);
@@ -975,9 +1041,10 @@ fn fri_cmd(args: &[String]) -> Result<()> {
     let mut r = rng(5);
     let mut done = 0usize;
     let only = opt(args, "--only").and_then(|s| s.parse::<usize>().ok());
+    let special = special_cfgs();
     for id in 0..ncases {
         let strong = id % 3 == 0;
-        let cfg = random_cfg(&mut r, strong, max_db);
+        let cfg = if id < special.len() { special[id].clone() } else { random_cfg(&mut r, strong, max_db) };
         if only.map_or(false, |o| o != id) {
             continue;
         }
@@ -999,6 +1066,20 @@ fn fri_cmd(args: &[String]) -> Result<()> {
 // ------------------------------------------------------------------------------------------
 // (d) batched variant
 // ------------------------------------------------------------------------------------------
+/// (rb, degs, bits, cap, pow, q): shapes with an empty Merkle path (see special_cfgs)
+fn special_batch() -> Vec<(usize, Vec<usize>, Vec<usize>, usize, u32, usize)> {
+    let mut v = vec![];
+    for &q in &[1usize, 6] {
+        v.push((1, vec![5, 4], vec![1, 1], 4, 0, q)); // last layer: 2^(6-2) leaves = 2^cap
+        v.push((2, vec![6, 3], vec![2, 1], 5, 2, q));
+        v.push((1, vec![4], vec![1], 4, 0, q));
+        v.push((1, vec![5, 4], vec![1, 1], 3, 0, q)); // control
+        v.push((1, vec![3], vec![], 4, 0, q)); // initial tree: lde_bits == cap, no reduction
+        v.push((2, vec![2], vec![], 4, 1, q));
+    }
+    v
+}
+
 fn batch_case(id: usize, r: &mut ChaCha8Rng) -> Value {
     // degree classes, strictly decreasing, each reachable by the arity schedule
     let rb = r.gen_range(1..=3usize);
@@ -1019,6 +1100,14 @@ fn batch_case(id: usize, r: &mut ChaCha8Rng) -> Value {
     let strong = id % 3 == 0;
     let q = if strong { (50 - pow as usize + rb - 1) / rb } else { r.gen_range(1..=20usize) };
     let q = q.min(30);
+    let sp = special_batch();
+    let (rb, degs, bits, cap, pow, q, k0) = if id < sp.len() {
+        let t = sp[id].clone();
+        let k0 = t.1[0];
+        (t.0, t.1, t.2, t.3, t.4, t.5, k0)
+    } else {
+        (rb, degs, bits, cap, pow, q, k0)
+    };
     let params = FriParams {
         config: FriConfig { rate_bits: rb, cap_height: cap, proof_of_work_bits: pow, reduction_strategy: FriReductionStrategy::Fixed(bits.clone()), num_query_rounds: q },
         hiding: false,
@@ -1130,7 +1219,7 @@ fn batch_case(id: usize, r: &mut ChaCha8Rng) -> Value {
                 pi < acc
             }).unwrap()
         };
-        rec.push(if inst == 0 { "leaf_edit" } else { "leaf_edit2" }, "fixed", json!({"poly": pi, "instance": inst, "round": rr}), only(rr), ver(&openings, &chal, &p));
+        rec.push(if inst == 0 { "leaf_edit" } else { "leaf_edit2" }, "fixed", json!({"poly": pi, "instance": inst, "round": rr, "path_len": k0 + rb - cap}), only(rr), ver(&openings, &chal, &p));
     }
     {
         let rr = r.gen_range(0..q);
@@ -1160,8 +1249,54 @@ fn batch_case(id: usize, r: &mut ChaCha8Rng) -> Value {
             let mut p = proof.clone();
             p.query_round_proofs[rr].steps[l].evals[m] += rfe(r);
             let cls: Vec<&'static str> = (0..q).map(|i| if i != rr { "miss" } else if slot_q { "hitq" } else { "hits" }).collect();
-            rec.push("coset_edit", "fixed", json!({"layer": l, "last": last, "round": rr}), cls, ver(&openings, &chal, &p));
+            rec.push("coset_edit", "fixed", json!({"layer": l, "last": last, "round": rr, "path_len": proof.query_round_proofs[rr].steps[l].merkle_proof.siblings.len()}), cls, ver(&openings, &chal, &p));
         }
+        // an entry of the cap of layer l that a query reads
+        {
+            let rr = r.gen_range(0..q);
+            let pl = proof.query_round_proofs[rr].steps[l].merkle_proof.siblings.len();
+            let ci = (idx[rr] >> sums[l + 1]) >> pl;
+            let mut p = proof.clone();
+            p.commit_phase_merkle_caps[l].0[ci].elements[r.gen_range(0..4)] += rf_nz(r);
+            let cls: Vec<&'static str> = idx.iter().map(|&x| if (x >> sums[l + 1]) >> pl == ci { "hit" } else { "miss" }).collect();
+            rec.push("layer_cap", "fixed", json!({"layer": l, "last": last, "cap_index": ci, "path_len": pl}), cls, ver(&openings, &chal, &p));
+        }
+    }
+    // single query: sibling value of the last layer changed, final polynomial forged (see run_case)
+    if nl > 0 && q == 1 {
+        let l = nl - 1;
+        let ab = bits[l];
+        let n0 = k0 + rb;
+        let cur = idx[0] >> sums[l];
+        let within = cur & ((1 << ab) - 1);
+        let m = (within + r.gen_range(1..(1usize << ab))) & ((1 << ab) - 1);
+        let mut p = proof.clone();
+        let x0 = F::MULTIPLICATIVE_GROUP_GENERATOR * F::primitive_root_of_unity(n0).exp_u64(rev_bits(idx[0], n0) as u64);
+        let x = x0.exp_power_of_2(sums[l]);
+        let old = plonky2::verif_exports::compute_evaluation::<F, D>(x, within, ab, &p.query_round_proofs[0].steps[l].evals, chal.fri_betas[l]);
+        p.query_round_proofs[0].steps[l].evals[m] += rfe(r);
+        let new = plonky2::verif_exports::compute_evaluation::<F, D>(x, within, ab, &p.query_round_proofs[0].steps[l].evals, chal.fri_betas[l]);
+        // an instance joining after the last reduction multiplies the folded value by beta
+        let joins_last = (1..degs.len()).any(|i| k0 - sums[nl] == degs[i]);
+        let dlt = if joins_last { (new - old) * chal.fri_betas[l] } else { new - old };
+        p.final_poly.coeffs[0] += dlt;
+        let pl = p.query_round_proofs[0].steps[l].merkle_proof.siblings.len();
+        rec.push("coset_forge", "fixed", json!({"layer": l, "last": true, "slot": m, "path_len": pl}), vec!["hits"], ver(&openings, &chal, &p));
+    }
+    // an entry of the cap of the batch oracle that a query reads
+    {
+        let rr = r.gen_range(0..q);
+        let pl = k0 + rb - cap;
+        let ci = idx[rr] >> pl;
+        let mut c2 = cap0.clone();
+        c2.0[ci].elements[r.gen_range(0..4)] += rf_nz(r);
+        let cls: Vec<&'static str> = idx.iter().map(|&x| if x >> pl == ci { "hit" } else { "miss" }).collect();
+        let v = match guarded(|| verify_batch_fri_proof::<F, C, D>(&degs, &instances, &openings, &chal, &[c2.clone()], &proof, &params)) {
+            Ok(Ok(())) => Verdict::Accept,
+            Ok(Err(e)) => Verdict::Reject(format!("{e}")),
+            Err(m) => Verdict::Panic(m),
+        };
+        rec.push("init_cap", "fixed", json!({"cap_index": ci, "path_len": pl}), cls, v);
     }
     {
         let t = r.gen_range(0..proof.final_poly.len());
